@@ -6,11 +6,13 @@ a missing size uses the next smaller listed one, and the nut's thread is larger 
 `decide +kernel` over the regenerated table, so an edited row breaks the proof obligation.  The
 thread mesh itself (start at z = 0, radii between minor and major, one pitch per turn, handedness)
 is compared vertex by vertex with the crate's mesh and checked by the Lean oracle on every case of
-the run; those mesh facts are not theorems (PARTIAL).
+the run; its structure, radii, helix, pitch per turn and closedness are theorems for every parameter
+set (below).
 -/
 import ScadVerif.Lemmas.PtReal
 import ScadVerif.Model.Parts
 import ScadVerif.Lemmas.ThreadLemmas
+import ScadVerif.Lemmas.ThreadClosed
 namespace ScadVerif.C16
 open ScadVerif ScadVerif.Thread
 
@@ -234,5 +236,29 @@ theorem pitch_per_turn (pitch threadLength : ℝ) (segments : Nat) (hp : 0 < pit
     pitch ≤ (segments : ℝ) * (threadLength / (nSteps : ℝ)) ∧
       (segments : ℝ) * (threadLength / (nSteps : ℝ)) * (nSteps : ℝ) < pitch * ((nSteps : ℝ) + 1) :=
   ThreadLemmas.pitch_per_turn pitch threadLength segments hp hs nSteps hn hpos
+
+/-- **C16/C04, the thread mesh is a closed surface.** For every parameter set for which the builder
+returns a mesh (any number of steps ≥ 2, both hands, any lead-in/lead-out): the face list is exactly
+two start triangles, eight triangles per step, two end triangles (`threadMesh_faceList`), and it
+satisfies `closedOriented` — valid indices, three distinct vertices per face, no directed edge in two
+faces, every directed edge matched by its reverse in another face. -/
+theorem threadMesh_faceList (dMin dMaj pitch length : ℝ) (segments : Nat) (li lo : ℝ) (left : Bool)
+    (m : Mesh ℝ) (h : threadMesh dMin dMaj pitch length segments li lo left = some m) :
+    ∃ n, 2 ≤ n ∧ m.faces = ThreadClosed.threadFaces left n ∧ m.points.length = 4 * n :=
+  ThreadClosed.threadMesh_faces dMin dMaj pitch length segments li lo left m h
+
+theorem threadMesh_closed (dMin dMaj pitch length : ℝ) (segments : Nat) (li lo : ℝ) (left : Bool)
+    (m : Mesh ℝ) (h : threadMesh dMin dMaj pitch length segments li lo left = some m) :
+    Spec.closedOriented m.points.length m.faces = true :=
+  ThreadClosed.threadMesh_closedOriented dMin dMaj pitch length segments li lo left m h
+
+/-- non-vacuity: the smallest thread mesh (two rings) and a left-handed one with five rings -/
+example : (ThreadClosed.threadFaces false 2).length = 12 ∧
+    (Spec.allEdges (ThreadClosed.threadFaces false 2)).Nodup ∧
+    MeshLemmas.EdgeClosed (Spec.allEdges (ThreadClosed.threadFaces false 2)) := by
+  unfold MeshLemmas.EdgeClosed; decide
+example : (Spec.allEdges (ThreadClosed.threadFaces true 4)).Nodup ∧
+    MeshLemmas.EdgeClosed (Spec.allEdges (ThreadClosed.threadFaces true 4)) := by
+  unfold MeshLemmas.EdgeClosed; decide
 
 end ScadVerif.C16
